@@ -217,7 +217,7 @@ fn case(m: &mut Mon, r: &mut Rng, idx: u64) {
             let h = gen::hash_limbs(gen::hash_limbs(2, &a), &b);
             let (x, y) = (ubig(&a), ubig(&b));
             let (xi, yi) = (ibig(na, &a), ibig(nb, &b));
-            let form = r.below(3);
+            let form = r.below(4);
             let cell = format!("{}x{}", gen::size_class(gen::nlimbs(&a)), gen::size_class(gen::nlimbs(&b)));
             let d = || format!("gcd_ext a={}{} b={}{} form={}", if na { "-" } else { "" }, gen::hex(&a), if nb { "-" } else { "" }, gen::hex(&b), form);
             m.check("gcd_ext", &cell, if gen::nlimbs(&a) > 0 && gen::nlimbs(&b) > 0 { Some(h) } else { None }, &d, || {
@@ -225,16 +225,28 @@ fn case(m: &mut Mon, r: &mut Rng, idx: u64) {
                 let (g, s, t) = match form {
                     0 => (&x).gcd_ext(&y),
                     1 => x.clone().gcd_ext(y.clone()),
+                    2 => (&x).gcd_ext(y.clone()),
                     _ => x.clone().gcd_ext(&y),
                 };
                 eq_u(&g, &want, "gcd_ext.g")?;
                 let lhs = int_of(&s) * BigInt::from(ma.clone()) + int_of(&t) * BigInt::from(mb.clone());
                 ensure!(lhs == BigInt::from(want.clone()), "bezout", "s*a + t*b = {} != g = {} (s={} t={})", show_int(&lhs), show_nat(&want), show_i(&s), show_i(&t));
-                let (g, s, t) = (&xi).gcd_ext(&yi);
+                // the four ownership forms are separate impls: rotate through them for the signed and mixed types too
+                let (g, s, t) = match form {
+                    0 => (&xi).gcd_ext(&yi),
+                    1 => xi.clone().gcd_ext(yi.clone()),
+                    2 => (&xi).gcd_ext(yi.clone()),
+                    _ => xi.clone().gcd_ext(&yi),
+                };
                 eq_u(&g, &want, "ibig gcd_ext.g")?;
                 let lhs = int_of(&s) * int(na, &a) + int_of(&t) * int(nb, &b);
                 ensure!(lhs == BigInt::from(want.clone()), "bezout", "ibig: s*a + t*b = {} != g = {}", show_int(&lhs), show_nat(&want));
-                let (g, s, t) = (&x).gcd_ext(&yi);
+                let (g, s, t) = match form {
+                    0 => (&x).gcd_ext(&yi),
+                    1 => x.clone().gcd_ext(yi.clone()),
+                    2 => (&x).gcd_ext(yi.clone()),
+                    _ => x.clone().gcd_ext(&yi),
+                };
                 eq_u(&g, &want, "mixed gcd_ext.g")?;
                 let lhs = int_of(&s) * BigInt::from(ma.clone()) + int_of(&t) * int(nb, &b);
                 ensure!(lhs == BigInt::from(want.clone()), "bezout", "mixed: s*a + t*b = {} != g = {}", show_int(&lhs), show_nat(&want));
